@@ -56,12 +56,16 @@ def discharge(ob, timeout_ms=10000, use_cvc5=True):
     if ob.result is not None:
         return ob
     t_all = time.time()
-    for attempt, (seed, factor) in enumerate(((0, 1), (7, 2), (23, 3))):
-        _discharge_once(ob, int(timeout_ms * factor), use_cvc5 and attempt == 2, seed)
+    # portfolio: z3's quantifier instantiation is unstable (the same query may take 0.05 s or > 30 s depending on the seed and
+    # on address-space layout), so several short attempts with different seeds come before the long ones
+    schedule = ((0, 0.25), (7, 0.25), (23, 0.25), (101, 0.5), (0, 1.0), (7, 2.0))
+    for attempt, (seed, factor) in enumerate(schedule):
+        last = attempt == len(schedule) - 1
+        _discharge_once(ob, max(1000, int(timeout_ms * factor)), use_cvc5 and last, seed)
         if ob.result != "open" or ob.kind in ("vacuity", "vacuity-exit"):
             break
         ob.result_prev = ob.detail
-        if attempt < 2:
+        if not last:
             ob.result = None
     ob.ms = int(1000 * (time.time() - t_all))
     return ob
@@ -184,7 +188,9 @@ def verify_unit(unit_loader, timeout_ms=10000, jobs=8, use_cvc5=False):
         outs = [_solve_idx(i) for i in todo]
     else:
         ctx = mp.get_context("fork")
-        with ctx.Pool(min(jobs, len(todo))) as pool:
+        # one fresh fork of this process per obligation: every query starts from the same solver state, so verdicts do not
+        # depend on which other obligations a worker happened to solve before (scheduling / load)
+        with ctx.Pool(min(jobs, len(todo)), maxtasksperchild=1) as pool:
             outs = pool.map(_solve_idx, todo, chunksize=1)
     for i, result, ms, backend, detail, model in outs:
         ob = _OBS[i]
